@@ -751,7 +751,7 @@ def gen_cpp(target, ent, info, pre, oracle, max_n, repo, gen, sanitize):
     elif re.match(r'^struct (LDG|LUG)_\w+$', rt) and classify(rt[len('struct '):] + '__x'):
         rinfo = classify(rt[len('struct '):] + '__x')
         retdecl, call_assign = '%s bg_ret; Cells<%s> ret_cells; %s real_ret(0);' % (rinfo['abs'], rinfo['abslabel'], rinfo['graph']), 'real_ret = '
-    elif rt in ('bg_vec_sz', 'bg_mat_sz'):
+    elif rt in ('bg_vec_sz', 'bg_mat_sz', 'bg_vec_real', 'bg_mat_real'):
         retdecl, call_assign = '%s bg_ret = %s();' % (rt, rt), 'bg_ret = abs_vec('
     else:
         retdecl, call_assign = '', ''
